@@ -1,3 +1,281 @@
 (* Proofs about Core/Model_Take.v. *)
 From LanceV Require Import Common.Base Core.Model_Deletion Core.Proofs_Deletion Core.Model_Take.
+From Coq Require Import Sorting.Sorted Sorting.Permutation.
 Local Open Scope N_scope.
+
+(* ================= A. sorting with a permutation ================= *)
+Section SortBy.
+  Context {A : Type} (key : A -> N).
+  Definition key_le (a b : A) : Prop := key a <= key b.
+
+  Lemma insert_by_perm (x : A) (l : list A) : Permutation (insert_by key x l) (x :: l).
+  Proof.
+    induction l as [|y ys IH]; cbn [insert_by]; [apply Permutation_refl|].
+    destruct (key x <=? key y); [apply Permutation_refl|].
+    eapply Permutation_trans; [apply perm_skip, IH | apply perm_swap].
+  Qed.
+
+  Lemma sort_by_perm (l : list A) : Permutation (sort_by key l) l.
+  Proof.
+    induction l as [|x xs IH]; cbn [sort_by fold_right]; [apply Permutation_refl|].
+    eapply Permutation_trans; [apply insert_by_perm | apply perm_skip, IH].
+  Qed.
+
+  Lemma insert_by_sorted (x : A) (l : list A) :
+    StronglySorted key_le l -> StronglySorted key_le (insert_by key x l).
+  Proof.
+    induction l as [|y ys IH]; intro Hs; cbn [insert_by].
+    - constructor; constructor.
+    - inversion Hs as [|? ? Hs' Hall]; subst.
+      destruct (N.leb_spec (key x) (key y)) as [Hle|Hgt].
+      + constructor; [exact Hs|]. constructor; [exact Hle|].
+        eapply Forall_impl; [|exact Hall]. unfold key_le. intros z Hz. lia.
+      + constructor; [apply IH; exact Hs'|].
+        apply (Permutation_Forall (Permutation_sym (insert_by_perm x ys))).
+        constructor; [unfold key_le; lia | exact Hall].
+  Qed.
+
+  Lemma sort_by_sorted (l : list A) : StronglySorted key_le (sort_by key l).
+  Proof.
+    induction l as [|x xs IH]; cbn [sort_by fold_right]; [constructor|]. apply insert_by_sorted, IH.
+  Qed.
+End SortBy.
+
+Lemma StronglySorted_map_le {A} (key : A -> N) (l : list A) :
+  StronglySorted (key_le key) l -> StronglySorted N.le (map key l).
+Proof.
+  induction 1 as [|x xs Hs IH Hall]; cbn [map]; constructor; [exact IH|].
+  apply Forall_map. exact Hall.
+Qed.
+
+Lemma lookup_idx_in {A} (i : N) (a : A) (l : list (N * A)) :
+  NoDup (map fst l) -> In (i, a) l -> lookup_idx i l = Some a.
+Proof.
+  unfold lookup_idx. induction l as [|[j b] l IH]; intros ND Hin; [destruct Hin|].
+  cbn [find fst]. cbn [map fst] in ND. inversion ND as [|? ? Hnotin ND']; subst.
+  destruct Hin as [E|Hin].
+  - inversion E; subst. rewrite N.eqb_refl. reflexivity.
+  - destruct (N.eqb_spec j i) as [->|Hne].
+    + exfalso. apply Hnotin. apply in_map_iff. exists (i, a). split; [reflexivity | exact Hin].
+    + apply IH; assumption.
+Qed.
+
+Lemma lookup_idx_some {A} (i : N) (a : A) (l : list (N * A)) : lookup_idx i l = Some a -> In (i, a) l.
+Proof.
+  unfold lookup_idx. destruct (find (fun p => fst p =? i) l) as [[j b]|] eqn:F; [|discriminate].
+  intro E. inversion E; subst. apply find_some in F. destruct F as [Hin Hj]. cbn [fst] in Hj.
+  apply N.eqb_eq in Hj. subst. exact Hin.
+Qed.
+
+Lemma enumerate_from_fst_ge {A} (l : list A) : forall i p, In p (enumerate_from i l) -> i <= fst p.
+Proof.
+  induction l as [|x xs IH]; intros i p Hin; [destruct Hin|]. cbn [enumerate_from] in Hin.
+  destruct Hin as [<-|Hin]; [cbn; lia|]. apply IH in Hin. lia.
+Qed.
+
+Lemma enumerate_from_nodup {A} (l : list A) : forall i, NoDup (map fst (enumerate_from i l)).
+Proof.
+  induction l as [|x xs IH]; intro i; cbn [enumerate_from map fst]; constructor; [|apply IH].
+  intro Hin. apply in_map_iff in Hin. destruct Hin as [p [Hp Hin]]. apply enumerate_from_fst_ge in Hin. lia.
+Qed.
+
+Lemma enumerate_from_nth {A} (d : A) (l : list A) : forall i k, (k < length l)%nat ->
+  In (i + N.of_nat k, nth k l d) (enumerate_from i l).
+Proof.
+  induction l as [|x xs IH]; intros i k Hk; [cbn in Hk; lia|]. cbn [enumerate_from].
+  destruct k as [|k]; [left; f_equal; lia|]. right. cbn [nth].
+  replace (i + N.of_nat (S k)) with ((i + 1) + N.of_nat k) by lia. apply IH. cbn in Hk. lia.
+Qed.
+
+Lemma combine_map_fst_g {A B C} (g : B -> C) (l : list (A * B)) :
+  combine (map fst l) (map g (map snd l)) = map (fun p => (fst p, g (snd p))) l.
+Proof. induction l as [|[a b] l IH]; cbn; [reflexivity | rewrite IH; reflexivity]. Qed.
+
+Lemma map_nth_seq {A B} (f : A -> B) (d : A) (l : list A) :
+  map (fun k => f (nth k l d)) (seq 0 (length l)) = map f l.
+Proof.
+  induction l as [|x xs IH]; [reflexivity|]. cbn [length seq map nth]. f_equal.
+  rewrite <- seq_shift, map_map. exact IH.
+Qed.
+
+(* the un-sorting step returns, at index i, the value computed for the i-th requested offset *)
+Lemma unsort_correct (g : N -> N) (offs : list N) :
+  let sp := sort_by snd (enumerate_from 0 offs) in
+  map (fun i => match lookup_idx i (combine (map fst sp) (map g (map snd sp))) with Some a => a | None => 0 end)
+      (N_range (N.of_nat (length offs))) = map g offs.
+Proof.
+  intro sp. rewrite combine_map_fst_g.
+  unfold N_range. rewrite Nat2N.id, map_map, <- (map_nth_seq g 0 offs).
+  apply map_ext_in. intros k Hk. apply in_seq in Hk.
+  rewrite (lookup_idx_in (N.of_nat k) (g (nth k offs 0))); [reflexivity| |].
+  - rewrite map_map. cbn [fst]. change (fun x : N * N => fst x) with (@fst N N).
+    apply (Permutation_NoDup (l := map fst (enumerate_from 0 offs))).
+    + apply Permutation_map, Permutation_sym, sort_by_perm.
+    + apply enumerate_from_nodup.
+  - apply in_map_iff. exists (N.of_nat k, nth k offs 0). split; [reflexivity|].
+    apply (Permutation_in (l := enumerate_from 0 offs)); [apply Permutation_sym, sort_by_perm|].
+    replace (N.of_nat k) with (0 + N.of_nat k) by lia. apply enumerate_from_nth. lia.
+Qed.
+
+Lemma enumerate_from_snd {A} (l : list A) : forall i, map snd (enumerate_from i l) = l.
+Proof. induction l as [|x xs IH]; intro i; cbn; [reflexivity | rewrite IH; reflexivity]. Qed.
+
+(* ================= B. fragments, scan, and the walk ================= *)
+Lemma dv_nodup_NoDup (D : dvec) : dv_nodup D = true -> NoDup D.
+Proof.
+  induction D as [|x xs IH]; intro H; [constructor|]. cbn in H. apply andb_true_iff in H. destruct H as [H1 H2].
+  constructor; [|apply IH; exact H2]. intro Hin. apply dv_contains_In in Hin. unfold dv_contains in Hin.
+  rewrite Hin in H1. discriminate.
+Qed.
+
+Record frag_wfP (f : frag) : Prop := {
+  wf_id : f_id f < two32 - 1;
+  wf_phys : f_phys f < two32;
+  wf_nodup : NoDup (f_dv f);
+  wf_inside : forall d, In d (f_dv f) -> d < f_phys f }.
+
+Lemma frag_wf_P (f : frag) : frag_wf f = true -> frag_wfP f.
+Proof.
+  unfold frag_wf. intro H. repeat (apply andb_true_iff in H; destruct H as [H ?]).
+  constructor.
+  - apply N.ltb_lt. assumption.
+  - apply N.ltb_lt. assumption.
+  - apply dv_nodup_NoDup. assumption.
+  - intros d Hd. match goal with Hf : forallb _ _ = true |- _ => rewrite forallb_forall in Hf; apply Hf in Hd end.
+    apply N.ltb_lt. exact Hd.
+Qed.
+
+Definition f_rows (f : frag) : N := f_phys f - dv_len (f_dv f).
+
+Lemma card_below_all (D : dvec) (n : N) : (forall d, In d D -> d < n) -> dv_card_below D n = dv_len D.
+Proof.
+  intro H. unfold dv_card_below, dv_len. f_equal.
+  induction D as [|x xs IH]; [reflexivity|]. cbn [filter].
+  destruct (N.ltb_spec x n) as [_|Hge]; [|specialize (H x (or_introl eq_refl)); lia].
+  cbn [length]. f_equal. apply IH. intros d Hd. apply H. right. exact Hd.
+Qed.
+
+Lemma live_below_phys (f : frag) : frag_wfP f -> live_below (f_dv f) (f_phys f) = f_rows f /\ dv_len (f_dv f) <= f_phys f.
+Proof.
+  intros [_ _ ND Hin]. pose proof (live_plus_card (f_dv f) (f_phys f) ND) as E.
+  rewrite (card_below_all _ _ Hin) in E. unfold f_rows. lia.
+Qed.
+
+Lemma f_count_rows_ok (f : frag) : frag_wfP f -> f_count_rows f = Ok (f_rows f).
+Proof.
+  intro W. destruct (live_below_phys f W) as [_ Hle]. unfold f_count_rows, f_rows.
+  destruct (N.ltb_spec (f_phys f) (dv_len (f_dv f))); [lia | reflexivity].
+Qed.
+
+Lemma frag_scan_length (f : frag) : frag_wfP f -> N.of_nat (length (frag_scan f)) = f_rows f.
+Proof.
+  intro W. destruct (live_below_phys f W) as [E _]. unfold frag_scan. rewrite map_length.
+  unfold f_live. exact E.
+Qed.
+
+(* the o-th element of the live positions below n *)
+Lemma nth_live_positions (D : dvec) (d : N) : forall n o a,
+  is_nth_live D o a -> a < n -> nth (N.to_nat o) (filter (dv_live D) (N_range n)) d = a.
+Proof.
+  induction n as [|n IH] using N.peano_ind; intros o a Hans Han; [lia|].
+  rewrite <- N.add_1_r, N_range_succ, filter_app.
+  destruct Hans as [Ha La].
+  destruct (N.eq_dec a n) as [->|Hne].
+  - rewrite app_nth2.
+    + assert (length (filter (dv_live D) (N_range n)) = N.to_nat o) as ->.
+      { unfold live_below in La. lia. }
+      rewrite Nat.sub_diag. cbn [filter]. unfold dv_live. rewrite Ha. reflexivity.
+    + unfold live_below in La. lia.
+  - rewrite app_nth1.
+    + apply IH; [split; assumption | lia].
+    + pose proof (live_below_mono D (a + 1) n ltac:(lia)) as M. rewrite live_below_succ, Ha in M.
+      unfold live_below in M at 2. lia.
+Qed.
+
+Lemma nth_live_lt (D : dvec) (n o a : N) : is_nth_live D o a -> o < live_below D n -> a < n.
+Proof.
+  intros [Ha La] H. destruct (N.lt_ge_cases a n) as [C|C]; [exact C | exfalso].
+  pose proof (live_below_mono D n a C). lia.
+Qed.
+
+Lemma frag_scan_nth (f : frag) (o a : N) : frag_wfP f -> is_nth_live (f_dv f) o a -> o < f_rows f ->
+  a < f_phys f /\ nth (N.to_nat o) (frag_scan f) TOMBSTONE_ROW = mk_addr (f_id f) a.
+Proof.
+  intros W Hans Ho. destruct (live_below_phys f W) as [E _].
+  assert (a < f_phys f) as Hlt by (apply (nth_live_lt (f_dv f) _ o); [exact Hans | lia]).
+  split; [exact Hlt|]. unfold frag_scan.
+  rewrite (nth_indep _ TOMBSTONE_ROW (mk_addr (f_id f) 0)).
+  - rewrite map_nth. f_equal. apply nth_live_positions; assumption.
+  - rewrite map_length. pose proof (frag_scan_length f W) as L. unfold frag_scan in L. rewrite map_length in L.
+    unfold f_live in *. lia.
+Qed.
+
+Lemma scan_cons (f : frag) (frs : list frag) : scan (f :: frs) = frag_scan f ++ scan frs.
+Proof. reflexivity. Qed.
+
+Lemma scan_app (l1 l2 : list frag) : scan (l1 ++ l2) = scan l1 ++ scan l2.
+Proof. unfold scan. apply flat_map_app. Qed.
+
+Definition scan_len (frs : list frag) : N := N.of_nat (length (scan frs)).
+
+Lemma scan_len_cons (f : frag) (frs : list frag) : frag_wfP f -> scan_len (f :: frs) = f_rows f + scan_len frs.
+Proof.
+  intro W. unfold scan_len. rewrite scan_cons, app_length, <- (frag_scan_length f W). lia.
+Qed.
+
+(* mapper invariant of the current fragment, for local offsets >= lo *)
+Definition head_inv (frs : list frag) (st : om_state) (lo : N) : Prop :=
+  match frs with
+  | f :: _ => match f_del f with Some D => om_inv D st lo | None => True end
+  | [] => True
+  end.
+
+Lemma skip_frags_spec : forall (frs : list frag) (fo : N) (st : om_state) (so : N),
+  Forall frag_wfP frs -> fo <= so -> fo + scan_len frs < two64 ->
+  exists skipped frs' st',
+    skip_frags frs fo st so = Ok (frs', fo + scan_len skipped, st') /\
+    frs = skipped ++ frs' /\
+    fo + scan_len skipped <= so /\
+    (skipped = [] -> st' = st) /\ (skipped <> [] -> st' = om_new) /\
+    match frs' with [] => True | f :: _ => so < fo + scan_len skipped + f_rows f end.
+Proof.
+  induction frs as [|f rest IH]; intros fo st so Hwf Hfo Hov.
+  - exists [], [], st. cbn [skip_frags app]. unfold scan_len. cbn. rewrite N.add_0_r.
+    repeat split; try reflexivity; try lia; intro; congruence.
+  - inversion Hwf as [|? ? W Hwf']; subst. cbn [skip_frags]. rewrite (f_count_rows_ok f W).
+    rewrite (scan_len_cons f rest W) in Hov.
+    destruct (N.leb_spec two64 (fo + f_rows f)); [lia|].
+    destruct (N.leb_spec (fo + f_rows f) so) as [Hskip|Hstay].
+    + destruct (IH (fo + f_rows f) om_new so Hwf' Hskip ltac:(lia)) as [sk [frs' [st' [E [Hsplit [Hle [_ [Hnew Hhead]]]]]]]].
+      exists (f :: sk), frs', st'.
+      assert (fo + scan_len (f :: sk) = fo + f_rows f + scan_len sk) as Elen by (rewrite (scan_len_cons f sk W); lia).
+      rewrite Elen. repeat split.
+      * exact E.
+      * cbn [app]. f_equal. exact Hsplit.
+      * exact Hle.
+      * intro C; discriminate C.
+      * intros _. destruct sk as [|s sk']; [|apply Hnew; discriminate].
+        (* nothing more was skipped: the state is the fresh one passed down *)
+        cbn [app] in Hsplit. subst frs'. clear -E.
+        destruct rest as [|g rest']; cbn [skip_frags] in E.
+        { inversion E; reflexivity. }
+        { destruct (f_count_rows g) as [rows| |]; try discriminate E.
+          destruct (two64 <=? fo + f_rows f + rows); [discriminate E|].
+          destruct (fo + f_rows f + rows <=? so) eqn:C.
+          - exfalso. (* would have skipped g, but skipped = [] says frs' = g :: rest' *)
+            assert (forall l a b c, skip_frags l a b c = Ok (g :: rest', fo + f_rows f + scan_len [], _) -> True) by trivial.
+            clear H. revert E. generalize (fo + f_rows f + rows). intros x E.
+            assert (forall l x st so r fo' st', skip_frags l x st so = Ok (r, fo', st') -> (length r <= length l)%nat) as Len.
+            { induction l as [|h t IHl]; intros x0 st0 so0 r fo' st'0 E0; cbn [skip_frags] in E0.
+              - inversion E0; subst; lia.
+              - destruct (f_count_rows h); try discriminate E0.
+                destruct (two64 <=? x0 + a); [discriminate E0|].
+                destruct (x0 + a <=? so0).
+                + apply IHl in E0. cbn [length]. lia.
+                + inversion E0; subst. lia. }
+            apply Len in E. cbn [length] in E. lia.
+          - inversion E; reflexivity. }
+      * exact Hhead.
+    + exists [], (f :: rest), st. unfold scan_len at 1 2 3 4. cbn [scan flat_map length N.of_nat]. rewrite !N.add_0_r.
+      repeat split; try reflexivity; try lia. intro C; congruence.
+Qed.
